@@ -5,27 +5,52 @@ import ErrModel.Transport
 -/
 namespace ErrModel
 
+/-- What `Is` (and C01/C04) can observe of one visible layer, identity aside. -/
+structure Lbl where
+  text : Str
+  tmark : TMark                       -- (family, extension) of the layer
+  otype : Str                         -- original type name
+  stored : Option Mark                -- the mark carried by a `withMark` layer
+  isSig : Option (Bool × Bool × Bool) -- what an errno-like layer's Is method answers for ErrPermission/ErrExist/ErrNotExist
+  multi : Bool                        -- a multi-cause layer (its children are branches, not a cause)
+  deriving DecidableEq, Repr, Inhabited
+
+def storedMark : Err → Option Mark
+  | .wrap _ (.withMark m t) _ => some ⟨m, t⟩
+  | _ => none
+
+def isSigOf : Err → Option (Bool × Bool × Bool)
+  | .leaf _ (.errno _ _ p x n _ _) => some (p, x, n)
+  | .leaf _ (.opaqueErrno _ _ _ p x n _ _) => some (p, x, n)
+  | _ => none
+
+def isMultiNode : Err → Bool
+  | .multi .. => true
+  | _ => false
+
+def label (e : Err) : Lbl := ⟨text e, typeMark Full e, origTypeName e, storedMark e, isSigOf e, isMultiNode e⟩
+
 inductive TTree
-  | node (t : Str) (kids : List TTree)
+  | node (l : Lbl) (kids : List TTree)
   deriving Repr, Inhabited
 
 def TTree.text : TTree → Str
-  | .node t _ => t
+  | .node l _ => l.text
 
 mutual
 def shape : Err → TTree
-  | .leaf id k => .node (text (.leaf id k)) []
-  | .barrier id m h => .node (text (.barrier id m h)) []
-  | .wrap id k c => .node (text (.wrap id k c)) [shape c]
-  | .second id c s => .node (text (.second id c s)) [shape c]
-  | .multi id k cs => .node (text (.multi id k cs)) (shapeL cs)
+  | .leaf id k => .node (label (.leaf id k)) []
+  | .barrier id m h => .node (label (.barrier id m h)) []
+  | .wrap id k c => .node (label (.wrap id k c)) [shape c]
+  | .second id c s => .node (label (.second id c s)) [shape c]
+  | .multi id k cs => .node (label (.multi id k cs)) (shapeL cs)
 def shapeL : List Err → List TTree
   | [] => []
   | e :: r => shape e :: shapeL r
 end
 
 theorem shape_text (e : Err) : (shape e).text = text e := by
-  cases e <;> simp [shape, TTree.text]
+  cases e <;> simp [shape, TTree.text, label]
 
 theorem text_eq_of_shape {a b : Err} (h : shape a = shape b) : text a = text b := by
   rw [← shape_text a, ← shape_text b, h]
@@ -47,6 +72,9 @@ def userOK (u : UserTy) : Bool :=
 def leafStable : LeafKind → Bool
   | .opaqueLeaf _ d hid => classify d.mark.fam = .other && !(hid.isEmpty && d.pay = .testErr)
   | .user u _ => userOK u
+  -- an OpaqueErrno (errno received from another architecture) is re-sent under its own type
+  -- name, for which no decoder exists: its `Is` method is lost on the next hop (see DESIGN, D11)
+  | .opaqueErrno .. => false
   | _ => true
 
 /-- `ct` is the Error() text of the cause -/
@@ -59,9 +87,11 @@ def wrapStable (k : WrapKind) (ct : Str) : Bool :=
   | .withContext tags _ => tags ≠ []     -- WithContextTags never attaches an empty tag set
   | _ => true
 
+/-- multi-cause layers have at least one branch (Join of nothing is nil; a foreign
+    multi-cause error with no causes is indistinguishable from a leaf on the wire) -/
 def multiStable (k : MultiKind) (n : Nat) : Bool :=
+  n ≠ 0 &&
   match k with
-  | .join => n ≠ 0
   | .opaqueLeafCauses _ d hid => classify d.mark.fam = .other && !(hid.isEmpty && d.pay = .testErr)
   | .user u _ => userOK u
   | _ => true
